@@ -118,10 +118,10 @@ Proof.
   assert (G4 : f_to_int I64_MIN I64_MAX total = n).
   { assert (BT : Btrunc total = n).
     { apply eq_IZR. rewrite (Btrunc_correct 53 1024 Hpe total), RT. apply trunc_int. }
-    unfold f_to_int. destruct total as [s|s| |s m e B]; try discriminate FT; cbv zeta; rewrite BT;
+    clear - Hn BT FT. unfold f_to_int. destruct total as [s|s| |s m e B]; try discriminate FT; cbv zeta; rewrite BT;
       unfold I64_MIN, I64_MAX; change (2 ^ 53) with 9007199254740992 in Hn;
       (destruct (n <? -9223372036854775808) eqn:A; [lia|]); (destruct (9223372036854775807 <? n) eqn:C; [lia|]); reflexivity. }
-  rewrite G4. apply from_truncated_spec. unfold in_i64, in_range, I64_MIN, I64_MAX. change (2 ^ 53) with 9007199254740992 in Hn. lia.
+  rewrite G4. apply from_truncated_spec. clear - Hn. unfold in_i64, in_range, I64_MIN, I64_MAX. change (2 ^ 53) with 9007199254740992 in Hn. lia.
 Qed.
 
 (* integers up to 2^53 convert exactly *)
@@ -150,10 +150,131 @@ Proof.
   change (2 ^ 53) with 9007199254740992 in H. unfold MINV, MAXV. lits. lia.
 Qed.
 
+(* ---- the general form ---- *)
+Definition two126 : f64 := f_of_bits 5174635971848699904.   (* 2^126 *)
+Lemma two126_int : is_int_float two126 (2 ^ 126) = true. Proof. vm_compute. reflexivity. Qed.
+Lemma sat_bounds126 u : Bcompare two126 (sat_hi u) = Some Lt /\ Bcompare (sat_lo u) (Bopp two126) = Some Lt.
+Proof. destruct u; split; vm_compute; reflexivity. Qed.
+
+(* the general form: whenever the real product is an integer that is itself a double (and below 2^126), Unit * f64 returns it, clamped *)
+Theorem unit_mul_f64_exact_repr u q n :
+  is_finite q = true -> (B2R q * IZR (spec_unit_factor u) = IZR n)%R ->
+  generic_format radix2 fexp64 (IZR n) -> Z.abs n < 2 ^ 126 ->
+  canon (unit_mul_f64 u q) /\ val (unit_mul_f64 u q) = clamp n.
+Proof.
+  intros Fq Hprod Hfmt Hn.
+  destruct (is_int_float_sound _ _ (factor_is_int u)) as [Ff Rf].
+  destruct (is_int_float_sound _ _ two126_int) as [F126 R126].
+  destruct (is_int_float_sound _ _ two63_int) as [F63 R63].
+  destruct (sat_bounds u) as (Fhi & Flo & _ & _). destruct (sat_bounds126 u) as (Chi & Clo).
+  pose proof (factor_pos u) as Hf1. apply IZR_le in Hf1.
+  set (f := IZR (spec_unit_factor u)) in *.
+  assert (Habs : (Rabs (B2R q) <= Rabs (IZR n))%R).
+  { rewrite <- Hprod, Rabs_mult. rewrite (Rabs_pos_eq f) by lra.
+    rewrite <- (Rmult_1_r (Rabs (B2R q))) at 1. apply Rmult_le_compat_l; [apply Rabs_pos|lra]. }
+  assert (Hnb : (Rabs (IZR n) < IZR (2 ^ 126))%R) by (rewrite <- abs_IZR; apply IZR_lt; exact Hn).
+  assert (Hq : (- IZR (2 ^ 126) < B2R q < IZR (2 ^ 126))%R).
+  { assert (Rabs (B2R q) < IZR (2 ^ 126))%R by lra. apply Rabs_def2 in H. lra. }
+  rewrite (Bcompare_correct _ _ two126 (sat_hi u) F126 Fhi) in Chi. apply opt_inj in Chi. apply Rcompare_Lt_inv in Chi. rewrite R126 in Chi.
+  assert (FO : is_finite (Bopp two126) = true) by (rewrite is_finite_Bopp; exact F126).
+  rewrite (Bcompare_correct _ _ (sat_lo u) (Bopp two126) Flo FO) in Clo. apply opt_inj in Clo. apply Rcompare_Lt_inv in Clo.
+  rewrite B2R_Bopp, R126 in Clo.
+  unfold unit_mul_f64. fold (sat_hi u). fold (sat_lo u).
+  assert (G1 : fge q (sat_hi u) = false).
+  { unfold fge. rewrite (Bcompare_correct _ _ q (sat_hi u) Fq Fhi). rewrite Rcompare_Lt by lra. reflexivity. }
+  assert (G2 : fle q (sat_lo u) = false).
+  { unfold fle. rewrite (Bcompare_correct _ _ q (sat_lo u) Fq Flo). rewrite Rcompare_Gt by lra. reflexivity. }
+  rewrite G1, G2.
+  set (total := fmul q (unit_factor_f64 u)).
+  assert (HT : B2R total = IZR n /\ is_finite total = true).
+  { pose proof (Bmult_correct 53 1024 Hp Hpe mode_NE q (unit_factor_f64 u)) as M.
+    rewrite Rf in M. fold f in M. rewrite Hprod in M.
+    rewrite (round_generic radix2 fexp64 (round_mode mode_NE) (IZR n) Hfmt) in M.
+    rewrite Rlt_bool_true in M.
+    - destruct M as (M1 & M2 & _). split; [exact M1|]. unfold total, fmul. rewrite M2, Fq, Ff. reflexivity.
+    - apply Rlt_trans with (IZR (2 ^ 126)); [exact Hnb|]. change (bpow radix2 1024) with (IZR (2 ^ 1024)). apply IZR_lt. reflexivity. }
+  destruct HT as [RT FT].
+  assert (BT : Btrunc total = n).
+  { apply eq_IZR. rewrite (Btrunc_correct 53 1024 Hpe total), RT. apply trunc_int. }
+  assert (CMP : flt (fabs total) two63 = (Z.abs n <? 2 ^ 63)).
+  { unfold flt, fabs. rewrite (Bcompare_correct _ _ (Babs total) two63); [|rewrite is_finite_Babs; exact FT|exact F63].
+    rewrite B2R_Babs, RT, R63, <- abs_IZR.
+    destruct (Z.abs n <? 2 ^ 63) eqn:E.
+    - rewrite Rcompare_Lt; [reflexivity|apply IZR_lt; lia].
+    - destruct (Z.eq_dec (Z.abs n) (2 ^ 63)) as [Q|Q].
+      + rewrite Q, Rcompare_Eq; reflexivity.
+      + rewrite Rcompare_Gt; [reflexivity|apply IZR_lt; lia]. }
+  fold two63. rewrite CMP. clearbody total.
+  change (2 ^ 126) with 85070591730234615865843651857942052864 in Hn.
+  destruct (Z.abs n <? 2 ^ 63) eqn:E.
+  - assert (G4 : f_to_int I64_MIN I64_MAX total = n).
+    { clear - Hn E BT FT. unfold f_to_int. destruct total as [s|s| |s m e B]; try discriminate FT; cbv zeta; rewrite BT;
+        unfold I64_MIN, I64_MAX; change (2 ^ 63) with 9223372036854775808 in E;
+        (destruct (n <? -9223372036854775808) eqn:A; [lia|]); (destruct (9223372036854775807 <? n) eqn:C; [lia|]); reflexivity. }
+    rewrite G4. change (2 ^ 63) with 9223372036854775808 in E.
+    destruct (from_truncated_spec n) as [C V]; [clear - E; unfold in_i64, in_range, I64_MIN, I64_MAX; lia|].
+    split; [exact C|]. rewrite V. symmetry. apply clamp_id. clear - E. unfold MINV, MAXV. lits. lia.
+  - assert (G4 : f_to_int I128_MIN I128_MAX total = n).
+    { clear - Hn E BT FT. unfold f_to_int. destruct total as [s|s| |s m e B]; try discriminate FT; cbv zeta; rewrite BT;
+        unfold I128_MIN, I128_MAX;
+        (destruct (n <? -170141183460469231731687303715884105728) eqn:A; [lia|]); (destruct (170141183460469231731687303715884105727 <? n) eqn:C; [lia|]); reflexivity. }
+    rewrite G4. apply from_total_spec.
+Qed.
+
 (* C04: adding integer-valued float seconds to an epoch is adding that many whole seconds, in the epoch's own scale *)
-From HF Require Import Views.
+From HF Require Import Gregorian Views.
 Theorem epoch_add_f64_integer e k : Z.abs (k * 1000000000) < 2 ^ 53 ->
   epoch_add_f64 e (f_of_Z k) = epoch_add e (unit_mul_i64 Second k).
 Proof.
   intros H. unfold epoch_add_f64, epoch_add. rewrite (unit_mul_f64_of_int Second k H). reflexivity.
+Qed.
+
+(* whole days: d days is d * 1318359375 * 2^16 ns, a double for |d| <= 6 800 000 (18 600 years) *)
+Lemma whole_days_in_format d : Z.abs d <= 6800000 -> generic_format radix2 fexp64 (IZR (d * 86400000000000)).
+Proof.
+  intros H. apply generic_format_FLT. exists (Float radix2 (d * 1318359375) 16).
+  - unfold F2R. cbn [Fnum Fexp]. change (bpow radix2 16) with (IZR 65536). rewrite <- mult_IZR. f_equal. lia.
+  - cbn [Fnum]. change (Z.abs (d * 1318359375) < 9007199254740992). lia.
+  - cbn [Fexp]. vm_compute. discriminate.
+Qed.
+Theorem unit_mul_f64_whole_days q d : is_finite q = true -> B2R q = IZR d -> Z.abs d <= 6800000 ->
+  unit_mul_f64 Day q = unit_mul_i64 Day d.
+Proof.
+  intros Fq Rq Hd.
+  destruct (unit_mul_f64_exact_repr Day q (d * 86400000000000) Fq) as [C V].
+  - rewrite Rq. change (spec_unit_factor Day) with 86400000000000. rewrite mult_IZR. reflexivity.
+  - apply whole_days_in_format. exact Hd.
+  - change (2 ^ 126) with 85070591730234615865843651857942052864. lia.
+  - assert (I64 : in_i64 d) by (unfold in_i64, in_range, I64_MIN, I64_MAX; lia).
+    destruct (unit_mul_spec Day d I64) as [C2 V2].
+    apply canon_unique; [exact C|exact C2|]. rewrite V, V2. reflexivity.
+Qed.
+(* an integer Modified Julian Date, in any time scale: exactly (k - 15020) days minus the scale's calendar offset *)
+Lemma fsub_int_exact a b : Z.abs a <= 2 ^ 52 -> Z.abs b <= 2 ^ 52 ->
+  is_finite (fsub (f_of_Z a) (f_of_Z b)) = true /\ B2R (fsub (f_of_Z a) (f_of_Z b)) = IZR (a - b).
+Proof.
+  intros Ha Hb. change (2 ^ 52) with 4503599627370496 in *.
+  destruct (f_of_Z_exact a) as [Ra Fa]; [change (2 ^ 53) with 9007199254740992; lia|].
+  destruct (f_of_Z_exact b) as [Rb Fb]; [change (2 ^ 53) with 9007199254740992; lia|].
+  pose proof (Bminus_correct 53 1024 Hp Hpe mode_NE (f_of_Z a) (f_of_Z b) Fa Fb) as M.
+  assert (X : Z.abs (a - b) <= 2 ^ 53) by (clear - Ha Hb; change (2 ^ 53) with 9007199254740992; lia).
+  rewrite Ra, Rb, <- minus_IZR in M. rewrite (round_int _ X) in M.
+  rewrite Rlt_bool_true in M.
+  - destruct M as (M1 & M2 & _). split; [exact M2|exact M1].
+  - rewrite <- abs_IZR. apply Rle_lt_trans with (IZR (2 ^ 53)); [apply IZR_le; exact X|].
+    change (bpow radix2 1024) with (IZR (2 ^ 1024)). apply IZR_lt. reflexivity.
+Qed.
+Lemma mjd_j1900_eq : mjd_j1900 = f_of_Z 15020.
+Proof.
+  destruct (is_int_float_sound mjd_j1900 15020 ltac:(vm_compute; reflexivity)) as [F R].
+  destruct (f_of_Z_exact 15020 ltac:(vm_compute; discriminate)) as [R2 F2].
+  apply B2R_Bsign_inj; [exact F|exact F2|rewrite R, R2; reflexivity|vm_compute; reflexivity].
+Qed.
+(* C17: an integer Modified Julian Date in any time scale is exactly (k - 15020) days minus the scale's calendar offset *)
+Theorem from_mjd_integer k t : Z.abs k <= 2 ^ 52 -> Z.abs (k - 15020) <= 6800000 ->
+  from_mjd_in_time_scale (f_of_Z k) t = mkE (dur_sub (unit_mul_i64 Day (k - 15020)) (gregorian_epoch_offset t)) t.
+Proof.
+  intros Hk Hd. unfold from_mjd_in_time_scale. rewrite mjd_j1900_eq.
+  destruct (fsub_int_exact k 15020 Hk ltac:(vm_compute; discriminate)) as [F R].
+  rewrite (unit_mul_f64_whole_days _ (k - 15020) F R Hd). reflexivity.
 Qed.
